@@ -1001,8 +1001,8 @@ func ruleLocalIndex(c *Ctx, r *Report, rule string, reach map[*ssa.Function]bool
 	r.rule(rule, 3, "every x[i] / x[a:b] on a local slice, string or array-backed variable is in range on every path: i is the induction variable of a loop bounded by len(x), or a constant / len(x)-k offset dominated by a guard that bounds len(x) from below (the guard's failing branch returns an error instead)")
 	seenBody := map[ast.Node]bool{}
 	for _, f := range sortedReach(reach) {
-		if f.Parent() != nil {
-			continue // closures are visited with their parent
+		if f.Parent() != nil && c.bodyOf(f.Parent()) != nil {
+			continue // closures are visited with their parent (a literal in a package-level table has none with a body)
 		}
 		body := c.bodyOf(f)
 		if body == nil || seenBody[body] {
@@ -1011,6 +1011,9 @@ func ruleLocalIndex(c *Ctx, r *Report, rule string, reach map[*ssa.Function]bool
 		seenBody[body] = true
 		fname := ssaFuncName(f)
 		pm := parentMap(body)
+		if lit, isLit := f.Syntax().(*ast.FuncLit); isLit {
+			pm = parentMap(lit) // its own parameters are found through the literal
+		}
 		count := map[string]int{}
 		ast.Inspect(body, func(n ast.Node) bool {
 			var x ast.Expr
